@@ -22,7 +22,7 @@ tvars == <<vars, l, cid, mon, viol, ndiv, divs, dflag, ncases>>
 
 \* monitor: last observed projection + per-connection counters
 Mon0 == [sock |-> "Off", enc |-> FALSE, lst |-> "Core", authed |-> FALSE, session |-> FALSE, redirect |-> FALSE,
-         conn |-> 0, connSig |-> 0, hung |-> FALSE, iq |-> "none"]
+         conn |-> 0, connSig |-> 0, hung |-> FALSE, iq |-> "none", sm |-> FALSE]
 
 TInit ==
     /\ cfg = CHOOSE x \in AllCfgs : TRUE
@@ -45,6 +45,7 @@ ModelAct(ev) ==
       [] ev.e = "SendIq"     -> SendIq
       [] ev.e = "Hdr"        -> ServerHeader(ev.versioned)
       [] ev.e = "Partial"    -> ServerPartial(ev.what)
+      [] ev.e = "Stall"      -> Stall
       [] OTHER               -> ServerElement(ElemOf(ev))
 
 \* observed output without the stream-management chatter that ClientStream does not model
@@ -65,7 +66,7 @@ MonNext(m, ev) ==
     IN [sock |-> p.sock, enc |-> p.enc, lst |-> p.lst, authed |-> p.authed, session |-> p.session, redirect |-> p.redirect,
         conn |-> p.conn,
         connSig |-> (IF newConn THEN 0 ELSE m.connSig) + NConnected(ev.sig),
-        hung |-> ev.hang, iq |-> p.iq]
+        hung |-> ev.hang, iq |-> p.iq, sm |-> p.smEnabled]
 
 \* the set of failures is kept bounded per clause: a broken implementation fails in thousands of
 \* executions, the first ones per clause identify it (and the validation stays linear)
@@ -83,7 +84,7 @@ Failed(m, n, ev, okModel, cf, modelConnected) ==
     IN {x \in {"C04-SensitiveBeforeTls", "C04-SecretBeforeTls", "C04-AuthenticatedUnencrypted", "C04-DoesNotGiveUp",
                "C10-DownButSession", "C10-CutNotDisconnected", "C10-SessionTwice", "C10-SessionDuringNegotiation",
                "C10-SessionBeforeNegotiationFinished", "C10-RequestCompletedTwice", "C10-RequestRetainedNotResumable",
-               "C10-RequestSurvivesNewSession",
+               "C10-RequestSurvivesNewSession", "C10-StreamManagementLeftOver",
                "C10-StaleStateOnNewStream"} :
         CASE x = "C04-SensitiveBeforeTls" -> ~P_NoLeak(tls, out)
           [] x = "C04-SecretBeforeTls" -> tls = "Required" /\ ev.rawLeak
@@ -104,6 +105,11 @@ Failed(m, n, ev, okModel, cf, modelConnected) ==
           \* any more: when such a session is reported the request must have been completed
           [] x = "C10-RequestSurvivesNewSession" ->
                 NConnected(ev.sig) > 0 /\ ~p.smResumed /\ m.iq = "out" /\ ev.e # "SendIq" /\ p.iq = "out"
+          \* stream-management chatter (<r/>, <a/>) while the client itself says, before and after the
+          \* step, that stream management is not enabled: state of an earlier session is still in use
+          [] x = "C10-StreamManagementLeftOver" ->
+                /\ ~m.sm /\ ~p.smEnabled /\ ~p.smResumed
+                /\ \E i \in DOMAIN ev.out : ev.out[i].k \in {"SmReq", "SmAck"}
           [] x = "C10-StaleStateOnNewStream" ->
                 /\ ev.e = "Connect" /\ ~ev.hang /\ p.sock = "On"
                 /\ ~( /\ Len(out) = 1 /\ out[1].k = "StreamOpen" /\ ~out[1].enc
